@@ -331,7 +331,7 @@ def violation_signature(pid, rec):
 
 def fresh_chunk_clause(tier, out):
     """used by C12: the arena-level clause of C12 evaluated on replayed behaviours"""
-    P = arena_pipeline(tier, "c12")
+    P = arena_pipeline(tier, "general")
     bad = P["bad"]["C12"]
     recs = nth_lines(P["obs"], [g for (_, _, g) in bad][:100])
     behs = behaviour_by_id(P["beh"], [r["b"] for r in recs.values()][:20])
